@@ -1,4 +1,5 @@
 import TcheranVerif.Proofs.MagicCert
+import TcheranVerif.Proofs.Sweep.S13  -- only to bound how many parts are checked at once (≈8 GB each)
 /-! C07 sweep, part 17: rook squares [13, 14, 17, 18] — decided by the kernel alone -/
 namespace Tcheran.Sweep
 
